@@ -2,7 +2,7 @@
 use crate::gen::*;
 use serde_json::{json, Value};
 
-pub const NAMES: &[&str] = &["div", "p", "span", "em", "ul", "li", "section", "b", "td", "tr", "table", "sup"];
+pub const NAMES: &[&str] = &["div", "p", "span", "em", "ul", "li", "section", "b", "td", "tr", "table", "sup", "tbody"];
 pub const CLASSES: &[&str] = &["x", "y", "z"];
 
 fn structural_name(n: &str) -> bool { n == "table" || n == "tr" || n == "td" || n == "li" }
@@ -163,6 +163,23 @@ impl CssDoc {
             if name != "ul" && !structural && r.chance(1, 3) { kids.push(N::T(format!(" {} ", self.token()))); }
         }
         if name == "ul" && kids.is_empty() { kids.push(N::el("li", vec![N::T(self.token())])); }
+        // table sections written out, with classes of their own (their colours are handed to the rows)
+        if name == "table" && r.chance(1, 2) {
+            let mut out: Vec<N> = vec![];
+            let nrows = kids.iter().filter(|k| matches!(k, N::E(n, _, _) if n == "tr")).count();
+            let head_rows = if nrows >= 2 && r.chance(1, 3) { 1 } else { 0 };
+            let mut seen = 0;
+            let mut sect = |r: &mut Rng, nm: &'static str, rows: Vec<N>| { let mut a: Vec<(&str, String)> = vec![]; if r.chance(2, 3) { a.push(("class", (*r.pick(CLASSES)).to_string())); } N::ela(nm, a, rows) };
+            let mut cur: Vec<N> = vec![];
+            for k in kids.into_iter() {
+                let is_row = matches!(&k, N::E(n, _, _) if n == "tr");
+                if !is_row { out.push(k); continue; }
+                cur.push(k); seen += 1;
+                if seen == head_rows { let rows = std::mem::take(&mut cur); out.push(sect(r, "thead", rows)); }
+            }
+            if !cur.is_empty() { let nm = if r.chance(1, 5) { "tfoot" } else { "tbody" }; out.push(sect(r, nm, cur)); }
+            kids = out;
+        }
         N::ela(name, attrs, kids)
     }
     pub fn body(&mut self, r: &mut Rng) -> Vec<N> { let n = r.range(1, 3); (0..n).map(|_| self.element(r, 0, "body")).collect() }
